@@ -31,6 +31,7 @@ type mutation struct {
 type c16Env struct {
 	m       *e2Machine
 	foreign string // id of another datatype (same collection)
+	typ     string
 	c1cuid  string
 }
 
@@ -101,6 +102,23 @@ func c16Mutations() []mutation {
 		}},
 		{"header-nil", func(m *model.PushPullMessage, e *c16Env) { m.Header = nil }},
 	}
+	// a complete, well-formed entry request (as the SDK builds it for a new datatype) for a key nobody uses, except that it
+	// carries the id of a stored datatype of another key: create / subscribe / subscribe-or-create
+	for _, mode := range []struct {
+		name string
+		bits uint32
+	}{{"create", 0x01}, {"subscribe", 0x02}, {"soc", 0x03}} {
+		mode := mode
+		ms = append(ms, mutation{"fresh-key-used-id-" + mode.name, func(m *model.PushPullMessage, e *c16Env) {
+			r := newReplica(9, typeOf(e.typ), mode.bits&1 != 0, 0)
+			p := r.dt.CreatePushPullPack()
+			p.Key, p.DUID, p.Option = "nokey", e.foreign, mode.bits
+			for _, op := range p.Operations {
+				op.ID.CUID = m.Cuid
+			}
+			m.PushPullPacks = []*model.PushPullPack{p}
+		}})
+	}
 	for bits := uint32(1); bits <= 0x7f; bits++ {
 		b := bits
 		ms = append(ms, mutation{fmt.Sprintf("option-%02x", b), func(m *model.PushPullMessage, e *c16Env) { pack(m).Option = b }})
@@ -137,7 +155,7 @@ func c16Case(t *testing.T, p c16Params, names []string) (res c16Result) {
 		w.Local(calls[0])
 		w.reps[0] = c0.dts["k1"].rep
 		w.Local(localCalls(w, 0, "")[0])
-		env := &c16Env{m: m, foreign: c0.dts["k2"].rep.dt.GetDUID(), c1cuid: c1.cuid}
+		env := &c16Env{m: m, typ: p.Type, foreign: c0.dts["k2"].rep.dt.GetDUID(), c1cuid: c1.cuid}
 		req := model.NewPushPullMessage(0, &model.Client{CUID: c0.cuid, Collection: c0.coll}, c0.dts["k1"].rep.dt.CreatePushPullPack())
 		b, _ := proto.Marshal(req)
 		var mut model.PushPullMessage
